@@ -14,7 +14,14 @@ import shutil
 import tempfile
 
 import common
-from common import Failure, cN, cbool, clist, ctext
+from common import Failure, cN, cbool, clist
+
+
+def ctext(t):
+    """a text as list N; long texts as a concatenation of chunks (a 40 000 element list literal is too deep for the parser)"""
+    if len(t) <= 400:
+        return common.ctext(t)
+    return '(concat %s)' % clist([common.ctext(t[i:i + 400]) for i in range(0, len(t), 400)])
 import impl
 
 EXPLANATION = ('Theorems over the Gallina model of the string-source classes (Props/C14.v): every view (as_str, as_lines, '
@@ -125,6 +132,39 @@ def gen_accesses(rng):
     return accs
 
 
+def gen_part(rng, exotic):
+    """a part of a concat: (kind, text, transformer)"""
+    if rng.chance(0.25):
+        k, t = gen_progx(rng, exotic, small=True)
+        return (k, t, None)
+    return (rng.choice(BASE_KINDS), gen_text(rng, exotic, 3, 3), gen_trans(rng) if rng.chance(0.35) else None)
+
+
+def gen_progx(rng, exotic, small=False):
+    variant = rng.choice(sorted(PROG_VARIANTS))
+    ml = 3 if small else 5
+    r = rng.below(3)
+    if r == 0:
+        return 'progx', (variant, gen_text(rng, exotic, ml, 3), None)
+    sin = (rng.choice(['str', 'file']), gen_text(rng, exotic, ml, 3))
+    return 'progx', (variant, None if r == 1 else gen_text(rng, exotic, 2, 3), sin)
+
+
+def gen_big_text(rng):
+    """9-40 KiB, clean, mostly ASCII, lines of 0-80 characters, sometimes without final newline"""
+    target = rng.randint(9 * 1024, 40 * 1024)
+    out, n = [], 0
+    while n < target:
+        k = rng.randint(0, 80)
+        line = ''.join(rng.choice('abc xyz') for _ in range(k))
+        if rng.chance(0.05):
+            line += '\u20ac'
+        out.append(line + '\n')
+        n += k + 1
+    t = ''.join(out)
+    return t if rng.chance(0.7) else t[:-1]
+
+
 def gen_buff(rng, text):
     n, nb = len(text), len(text.encode())
     cands = [1, 2, max(1, n - 1), max(1, n), n + 1, max(1, nb - 1), max(1, nb), nb + 1, 8192]
@@ -197,14 +237,27 @@ def trans_coq(t):
     return '(Some (TSeq %s))' % clist([atom_coq(a) for a in t[1]])
 
 
+PROG_VARIANTS = {'out': ('-stdout-from ', 'PFd', False, False), 'outi': ('-stdout-from -ignore-exit-code ', 'PFd', False, True),
+                 'erri': ('-stderr-from -ignore-exit-code ', 'PFd', True, True), 'err': ('-stderr-from ', 'PFile', True, False)}
+
+
 def base_coq(kind, text):
-    if kind == 'concat':  # text = ((kind1, text1, trans1), (kind2, text2, trans2))
-        return '(SConcat cs0 %s %s)' % tuple('(build %s %s)' % (base_coq(k, t), trans_coq(tr)) for k, t, tr in text)
+    if kind == 'concat':  # text = ((kind, text, trans), ...): any number of parts
+        return '(SConcat cs0 %s)' % clist(['(build %s %s)' % (base_coq(k, t), trans_coq(tr)) for k, t, tr in text])
     if kind == 'str':
         return '(SStr %s)' % ctext(text)
     if kind == 'file':
         return '(SFile %s)' % ctext(text)
-    return '(SProg %s cs0)' % ctext(text)
+    if kind == 'prog':
+        return '(SProg PFd (g_const %s) cs0 [])' % ctext(text)
+    if kind == 'progx':  # text = (variant, text printed by the program or None, stdin part (kind, text) or None)
+        v, ft, sin = text
+        g = 'g_cat' if ft is None else ('(g_const %s)' % ctext(ft) if sin is None else '(g_prefix %s)' % ctext(ft))
+        return '(SProg %s %s cs0 %s)' % (PROG_VARIANTS[v][1], g, clist([base_coq(*sin)]) if sin is not None else '(@nil src)')
+    if kind == 'runin':  # text = ((model kind, model text), (stdin kind, stdin text)): MODEL -transformed-by run % cat -stdin S
+        m, sin = text
+        return '(SRun g_cat cs0 (SConcat cs0 [%s; %s]))' % (base_coq(*sin), base_coq(*m))
+    raise ValueError(kind)
 
 
 ACC_COQ = {'str': 'AStr', 'lines': 'ALines', 'file': 'AFile', 'dep': 'ADep', 'freeze': 'AFreeze'}
@@ -275,19 +328,33 @@ class World:
             f.unlink()
 
     def source_syntax(self, kind, text, trans, here_doc=False):
-        """(exactly syntax of the string source, file to remove afterwards)"""
-        f = None
+        """(exactly syntax of the string source, None)"""
         if kind == 'str':
             s = literal_src(text, here_doc)
         elif kind == 'file':
-            f = self.put_file(text)
-            s = '-contents-of -rel-home %s ' % f.name
+            s = '-contents-of -rel-home %s ' % self.put_file(text).name
+        elif kind == 'prog':
+            s = '-stdout-from % cat ' + str(self.put_file(text)) + '\n'
+        elif kind == 'progx':
+            v, ft, sin = text
+            opt, _, to_stderr, ignore = PROG_VARIANTS[v]
+            cmd = 'cat' + ('' if ft is None else ' ' + str(self.put_file(ft))) + (' -' if sin is not None and ft is not None else '')
+            if to_stderr:
+                cmd += ' >&2'
+            if ignore:
+                cmd += '; exit 3'
+            s = opt + '$ ' + cmd + '\n'  # `$`: a shell command line (`%` runs a program without a shell)
+            if sin is not None:  # parentheses: a following -transformed-by belongs to the program, not to the stdin source
+                s += '-stdin ( ' + nl(self.source_syntax(sin[0], sin[1], None)[0]) + ')\n'
+        elif kind == 'runin':
+            m, sin = text
+            s = nl(self.source_syntax(m[0], m[1], None)[0]) + '-transformed-by run % cat\n-stdin ( ' + \
+                nl(self.source_syntax(sin[0], sin[1], None)[0]) + ')\n'
         else:
-            f = self.put_file(text)
-            s = '-stdout-from % cat ' + str(f) + '\n'
+            raise ValueError(kind)
         if trans is not None:
             s += '-transformed-by ' + trans_src(trans)
-        return s, f
+        return s, None
 
     def build_source(self, syntax, env):
         from exactly_lib.section_document.parse_source import ParseSource
@@ -476,14 +543,21 @@ def observe_verdicts(world, kind, text, trans, buff, m):
         world.clear_files()
 
 
-def observe_kinds(world, te, ta, trans, buff):
+def kind_source(k, t, variant, sin):
+    """(kind, text) of the source of kind k in {'str','file','prog'} holding the text t"""
+    if k != 'prog':
+        return k, t
+    return 'progx', ((variant, None, ('str', t)) if sin else (variant, t, None))
+
+
+def observe_kinds(world, te, ta, trans, buff, variant='out', sin=False):
     d, env = world.new_env(buff)
     try:
         out = []
         for ke in BASE_KINDS:
             for ka in BASE_KINDS:
-                ms = nl('equals ' + world.source_syntax(ke, te, None)[0])
-                out.append(apply_matcher(world, env, ms, world.source_syntax(ka, ta, trans)[0]))
+                ms = nl('equals ' + world.source_syntax(*kind_source(ke, te, variant, sin), None)[0])
+                out.append(apply_matcher(world, env, ms, world.source_syntax(*kind_source(ka, ta, variant, sin), trans)[0]))
         return out
     finally:
         shutil.rmtree(d, ignore_errors=True)
@@ -495,13 +569,23 @@ def verdict_case_term(kind, text, trans, buff, extra, m, observed):
                                                matcher_coq(m), clist([cobool(v) for v in observed]))
 
 
-def kinds_case_term(te, ta, trans, buff, extra, observed):
-    return '(CaseKinds %s %s %s %s %s %s)' % (ctext(te), ctext(ta), trans_coq(trans), cN(buff), cN(extra),
-                                             clist([cobool(v) for v in observed]))
+def kinds_case_term(te, ta, trans, buff, extra, observed, variant='out', sin=False):
+    return '(CaseKinds %s %s %s %s %s %s %s %s)' % (PROG_VARIANTS[variant][1], cbool(sin), ctext(te), ctext(ta), trans_coq(trans),
+                                                   cN(buff), cN(extra), clist([cobool(v) for v in observed]))
 
 
 def leaf_texts(kind, text):
-    return [t for _, t, _ in text] if kind == 'concat' else [text]
+    if kind == 'concat':
+        return [t for k, x, _ in text for t in leaf_texts(k, x)]
+    if kind == 'progx':
+        return ([text[1]] if text[1] is not None else []) + (leaf_texts(*text[2]) if text[2] is not None else [])
+    if kind == 'runin':
+        return leaf_texts(*text[0]) + leaf_texts(*text[1])
+    return [text]
+
+
+def whole_text(kind, text):
+    return ''.join(leaf_texts(kind, text))
 
 
 def finding_of(texts, buff=None):
@@ -577,6 +661,7 @@ def decorrelated(ctx):
 def run(ctx, res):
     rng = decorrelated(ctx)
     n_acc, n_ver, n_kinds = (2500, 700, 120) if ctx.quick else (30000, 8000, 1500)
+    n_big_pct = 1  # per cent of the access cases with a text of 9-40 KiB (quick: ~25, thorough: ~300)
     world = World(ctx.work)
     extra = extra_to_read()
     res.rule = ('(1) access cases: string sources built by the real parser: {literal / here-document, -contents-of FILE, '
@@ -620,11 +705,29 @@ def run(ctx, res):
                 buff = gen_buff(rng, text)
                 accs = gen_accesses(rng)
                 here = rng.chance(0.5)
-                if rng.chance(0.15):  # concat of two parts, built through concat.string_source
-                    parts = tuple((rng.choice(BASE_KINDS), gen_text(rng, exotic, 3, 3), gen_trans(rng) if rng.chance(0.4) else None)
-                                  for _ in range(2))
+                r = rng.below(100)
+                if r < 15:  # concat of 2-4 parts of any kinds, built through concat.string_source
+                    parts = tuple(gen_part(rng, exotic) for _ in range(rng.randint(2, 4)))
                     kind, text, trans = 'concat', parts, None
-                    buff = gen_buff(rng, parts[0][1] + parts[1][1])
+                    buff = gen_buff(rng, whole_text(kind, text))
+                elif r < 27:  # program output: stdout / stderr, exit code ignored or not, with or without -stdin
+                    kind, text = gen_progx(rng, exotic)
+                    buff = gen_buff(rng, whole_text(kind, text))
+                elif r < 32:  # MODEL -transformed-by run % cat -stdin S : concat [S, MODEL] as the program's stdin
+                    kind = 'runin'
+                    text = ((rng.choice(BASE_KINDS), gen_text(rng, exotic, 3, 3)), (rng.choice(['str', 'file']), gen_text(rng, exotic, 2, 3)))
+                    trans = None
+                    buff = gen_buff(rng, whole_text(kind, text))
+                elif r < 32 + n_big_pct:  # a text larger than the 8 KiB buffers of the io layer
+                    kind = rng.choice(BASE_KINDS)
+                    text = gen_big_text(rng)
+                    trans = rng.choice([None, ('atom', ('id',)), ('atom', ('filter', ('true',))), ('atom', ('replace', 'abb', False)),
+                                        ('atom', ('run', 'cat')), ('seq', [('filter', ('ge', 2)), ('upper',)])])
+                    buff = rng.choice([8192, 8192, 1, 100, len(text) - 1, len(text), 3000])
+                    accs = [a for a in accs if a != 'dep'][:4] or ['str']
+                    if 'freeze' not in accs:
+                        accs.insert(rng.below(2), 'freeze')
+                    here = False
             syntax, observed = observe_access(world, kind, text, trans, buff, accs, here)
             c = (kind, text, trans, buff, accs, observed, syntax)
             texts = leaf_texts(kind, text)
@@ -632,9 +735,11 @@ def run(ctx, res):
             res.count('access cases: base ' + kind)
             res.count('access cases: text ' + ('with CR/exotic boundary' if finding_of(texts) else 'clean'))
             res.count('access cases: buffer ' + ('< text' if buff < len(whole) else '>= text'))
+            if len(whole) > 8192:
+                res.count('access cases: text larger than 8 KiB')
             res.count('access cases: ' + ('non-ASCII text' if any(ord(ch) >= 128 for ch in whole) else 'ASCII text'))
             add(access_case_term(*c[:6]), case_json(c), texts, buff, ('a', syntax, repr(text), buff, tuple(accs)),
-                ('freeze' in accs and accs.index('freeze') < len(accs) - 1) or trans is not None or kind == 'concat' or
+                ('freeze' in accs and accs.index('freeze') < len(accs) - 1) or trans is not None or kind in ('concat', 'progx', 'runin') or
                 (whole and not whole.endswith('\n')) or finding_of(texts, buff))
         for j in range(len(CORPUS_VERDICT) + n_ver):
             if j < len(CORPUS_VERDICT):
@@ -646,31 +751,39 @@ def run(ctx, res):
                 trans = gen_trans(rng) if rng.chance(0.6) else None
                 buff = gen_buff(rng, text)
                 m = gen_matcher(rng, rng.randint(0, 2), text, exotic)
+                if rng.chance(0.12):
+                    kind, text = gen_progx(rng, exotic)
+                    buff = gen_buff(rng, whole_text(kind, text))
+                    m = gen_matcher(rng, rng.randint(0, 2), whole_text(kind, text), exotic)
             syntax, vs, observed = observe_verdicts(world, kind, text, trans, buff, m)
             res.count('verdict cases: base ' + kind)
-            res.count('verdict cases: text ' + ('with CR/exotic boundary' if finding_of([text] + matcher_texts(m)) else 'clean'))
+            res.count('verdict cases: text ' + ('with CR/exotic boundary' if finding_of(leaf_texts(kind, text) + matcher_texts(m)) else 'clean'))
             res.count('verdict cases: verdict of M ' + str(observed[0]))
             add(verdict_case_term(kind, text, trans, buff, extra, m, observed),
                 {'kind': 'verdict', 'base': kind, 'text': text, 'transformer': trans, 'mem_buff_size': buff, 'matcher': m,
                  'source_syntax': syntax, 'matcher_variants': vs, 'observed_verdicts': observed},
-                [text] + matcher_texts(m), buff, ('v', syntax, text, buff, repr(m)), True)
+                leaf_texts(kind, text) + matcher_texts(m), buff, ('v', syntax, repr(text), buff, repr(m)), True)
         for j in range(len(CORPUS_KINDS) + n_kinds):
+            variant, sin = 'out', False
             if j < len(CORPUS_KINDS):
                 te, ta, trans, buff = CORPUS_KINDS[j]
             else:
+                variant, sin = rng.choice(sorted(PROG_VARIANTS)), rng.chance(0.3)
                 exotic = rng.chance(0.25)
                 te = gen_long_text(rng, extra) if rng.chance(0.15) else gen_text(rng, exotic)
                 ta = vary_text(rng, te, exotic)
                 trans = rng.choice([None, None, None, ('atom', ('id',)), ('atom', ('filter', ('true',))), ('seq', [('id',), ('filter', ('ge', 1))]),
                                     ('atom', ('replace', 'bnl', False))])
                 buff = gen_buff(rng, ta)
-            observed = observe_kinds(world, te, ta, trans, buff)
+            observed = observe_kinds(world, te, ta, trans, buff, variant, sin)
+            res.count('kind cases: program kind %s%s' % (variant, ' with -stdin' if sin else ''))
             res.count('kind cases: ' + ('same text' if te == ta else 'different texts'))
             res.count('kind cases: text ' + ('with CR/exotic boundary' if finding_of([te, ta]) else 'clean'))
-            add(kinds_case_term(te, ta, trans, buff, extra, observed),
+            add(kinds_case_term(te, ta, trans, buff, extra, observed, variant, sin),
                 {'kind': 'kinds', 'expected_text': te, 'actual_text': ta, 'transformer_of_actual': trans, 'mem_buff_size': buff,
+                 'program_variant': variant, 'program_reads_stdin': sin,
                  'pairs': [[ke, ka] for ke in BASE_KINDS for ka in BASE_KINDS], 'observed_verdicts': observed},
-                [te, ta], buff, ('k', te, ta, repr(trans), buff), True)
+                [te, ta], buff, ('k', te, ta, repr(trans), buff, variant, sin), True)
     finally:
         world.close()
     res.evaluations = len(cases)
@@ -718,11 +831,11 @@ def case_of_json(js):
     """(family, args) from the JSON description stored in a replay file"""
     k = js['kind']
     if k == 'access':
-        return k, (js['base'], _tup(js['text']) if js['base'] == 'concat' else js['text'], _tup(js.get('transformer')),
-                   js['mem_buff_size'], list(js['accesses']))
+        return k, (js['base'], _tup(js['text']), _tup(js.get('transformer')), js['mem_buff_size'], list(js['accesses']))
     if k == 'verdict':
-        return k, (js['base'], js['text'], _tup(js.get('transformer')), js['mem_buff_size'], _tup(js['matcher']))
-    return k, (js['expected_text'], js['actual_text'], _tup(js.get('transformer_of_actual')), js['mem_buff_size'])
+        return k, (js['base'], _tup(js['text']), _tup(js.get('transformer')), js['mem_buff_size'], _tup(js['matcher']))
+    return k, (js['expected_text'], js['actual_text'], _tup(js.get('transformer_of_actual')), js['mem_buff_size'],
+               js.get('program_variant', 'out'), bool(js.get('program_reads_stdin', False)))
 
 
 def observe_case(world, family, args, extra):
@@ -738,11 +851,12 @@ def observe_case(world, family, args, extra):
         return (verdict_case_term(kind, text, trans, buff, extra, m, observed),
                 {'kind': 'verdict', 'base': kind, 'text': text, 'transformer': trans, 'mem_buff_size': buff, 'matcher': m,
                  'source_syntax': syntax, 'matcher_variants': vs, 'observed_verdicts': observed},
-                [text] + matcher_texts(m), buff)
-    te, ta, trans, buff = args
-    observed = observe_kinds(world, te, ta, trans, buff)
-    return (kinds_case_term(te, ta, trans, buff, extra, observed),
+                leaf_texts(kind, text) + matcher_texts(m), buff)
+    te, ta, trans, buff, variant, sin = args
+    observed = observe_kinds(world, te, ta, trans, buff, variant, sin)
+    return (kinds_case_term(te, ta, trans, buff, extra, observed, variant, sin),
             {'kind': 'kinds', 'expected_text': te, 'actual_text': ta, 'transformer_of_actual': trans, 'mem_buff_size': buff,
+             'program_variant': variant, 'program_reads_stdin': sin,
              'pairs': [[ke, ka] for ke in BASE_KINDS for ka in BASE_KINDS], 'observed_verdicts': observed},
             [te, ta], buff)
 
@@ -765,10 +879,11 @@ def search(ctx, res):
                     v = (kind, text, trans, gen_buff(rng, whole), gen_accesses(rng))
                 elif family == 'verdict':
                     kind, text, trans, buff, m = args
-                    v = (kind, text, trans, gen_buff(rng, text), m if rng.chance(0.5) else gen_matcher(rng, 1, text, False))
+                    wt = whole_text(kind, text)
+                    v = (kind, text, trans, gen_buff(rng, wt), m if rng.chance(0.5) else gen_matcher(rng, 1, wt, False))
                 else:
-                    te, ta, trans, buff = args
-                    v = (te, ta if rng.chance(0.7) else te, trans, gen_buff(rng, ta))
+                    te, ta, trans, buff, variant, sin = args
+                    v = (te, ta if rng.chance(0.7) else te, trans, gen_buff(rng, ta), variant, sin)
                 try:
                     tried.append(observe_case(world, family, v, extra))
                 except Exception:
